@@ -1,13 +1,24 @@
 #!/bin/bash
-# Applies a patch to /repo, runs the given checks (quick tier), prints one line per
-# check (exit code and the first VIOLATION line), and restores /repo.
+# Tries a seeded change: applies a patch to a scratch worktree of /repo (outside /repo
+# and /verif, removed afterwards), runs the given checks on it through VERIF_REPO,
+# prints one line per check (exit code and the first VIOLATION line).  /repo itself is
+# not touched, so a long run on /repo can go on meanwhile.  IN_REPO=1 applies the patch
+# to /repo instead (the documented procedure; needs a clean tree and restores it).
 # usage: tools/seedtest.sh <patch.diff> <PROP> [<PROP> ...]
 set -u
-patch=$1; shift
+patch=$(readlink -f "$1"); shift
 cd /verif
-if ! git -C /repo diff --quiet; then echo "/repo has uncommitted changes; refusing"; exit 2; fi
-git -C /repo apply "$patch" || { echo "patch does not apply"; exit 2; }
-trap 'git -C /repo checkout -q -- . ; git -C /repo clean -fdq' EXIT
+if [ "${IN_REPO:-0}" = 1 ]; then
+  if ! git -C /repo diff --quiet; then echo "/repo has uncommitted changes; refusing"; exit 2; fi
+  git -C /repo apply "$patch" || { echo "patch does not apply"; exit 2; }
+  trap 'git -C /repo checkout -q -- . ; git -C /repo clean -fdq' EXIT
+else
+  wt=$(mktemp -d /tmp/seedwt-XXXXXX); rmdir "$wt"
+  git -C /repo worktree add -q --detach "$wt" HEAD || exit 2
+  trap 'git -C /repo worktree remove --force "$wt"' EXIT
+  git -C "$wt" apply "$patch" || { echo "patch does not apply"; exit 2; }
+  export VERIF_REPO=$wt
+fi
 for p in "$@"; do
   out=$(timeout 900 ./bin/vcheck run "$p" --tier "${TIER:-quick}" 2>&1); rc=$?
   v=$(echo "$out" | grep -m1 '^VIOLATION' | cut -c1-260)
